@@ -169,6 +169,29 @@ func genC09(g *G) {
 			}
 		}
 	}
+	// a large cache: thousands of entries, Clear, refill until entries are evicted (storage management
+	// that depends on the number of entries only runs at such sizes)
+	for _, lru := range []string{"1", "0"} {
+		for _, first := range []int{100, 4097, 4200} {
+			if lru == "0" && first != 4200 {
+				continue
+			}
+			var ops []string
+			key := func(i int) string { return HS("k" + I(i)) }
+			for i := 0; i < first; i++ {
+				ops = append(ops, "s"+key(i)+":31")
+			}
+			ops = append(ops, "t", "g"+key(0), "g"+key(first-1), "c", "t", "g"+key(1))
+			for i := 0; i < 4400; i++ {
+				ops = append(ops, "s"+key(10000+i)+":32")
+				if i%1100 == 7 {
+					ops = append(ops, "g"+key(10000), "t")
+				}
+			}
+			ops = append(ops, "t", "g"+key(10000), "g"+key(10001), "g"+key(10300), "g"+key(14399), "g"+key(5), "d"+key(14399), "t", "c", "t")
+			g.Emit("cache", "0", "0", "4300", lru, "0", strings.Join(ops, " "), "")
+		}
+	}
 	// random histories with re-entrant scripted callbacks
 	for i := 0; i < g.N(30000, 600000); i++ {
 		ms := maxSizes[g.Rnd.IntN(len(maxSizes))]
